@@ -276,23 +276,24 @@ PROPS = {
                       "proves for nodes, bare roots and the hiding wrapper (C09): for EVERY policy (recursion through Arc and Vec, thresholds of any length) the root computed directly, "
                       "the root of the compiled program and the root of whatever satisfy_internal builds - for any answers of the satisfier, any choice of branches - are one and the same "
                       "function pcmr(policy); satisfy returns a program with that root. (2) LAST sentence - Policy::sort / Policy::sorted: "
-                      "the result is canonical at EVERY depth (and/or children ordered, threshold children sorted, recursively) and an already canonical policy is "
-                      "returned unchanged (idempotence); not the confluence clause. The SECOND sentence (satisfaction succeeds exactly when the answers make the policy true; the program runs) "
+                      "the result is canonical at EVERY depth (and/or children ordered, threshold children sorted, recursively), an already canonical policy is "
+                      "returned unchanged (idempotence), and the result EQUALS nf(input) - a spec function (children first; and/or greater child left; threshold children by vstd's "
+                      "spec merge sort) proved invariant under exchanging the children of and/or nodes, under every permutation (multiset form; transpositions) of a threshold's children, "
+                      "and congruent in the children (so at any depth): reordered policies sort to the same policy. The SECOND sentence (satisfaction succeeds exactly when the answers make the policy true; the program runs) "
                       "is not decided deductively: bounded native enumeration c16_policy_roots_replay (thorough tier / fallback), labelled bounded.",
-        "level_note": "Assumed (R8): the derived Ord on Policy is a total preorder (`ple`); slice::sort returns a sorted permutation and leaves a sorted input unchanged; "
+        "level_note": "Assumed (R8): the derived Ord on Policy is a total order (`ple`: reflexive, total, transitive, and - used only for the confluence clause - antisymmetric w.r.t. structural equality); slice::sort returns a sorted permutation and leaves a sorted input unchanged; "
                       "Arc::make_mut gives write access to the Arc's content; `for sub in &mut *subs` is rewritten to an index loop (R10); the or-pattern arm is duplicated (R18); "
-                      "Vec values with equal contents are equal. NOT decided: that two policies differing only by reordering of children sort to the SAME policy (uniqueness of "
-                      "the canonical form); whether satisfaction succeeds exactly when the policy is true and whether the returned program executes (typed programs, signatures, the Bit Machine) - "
+                      "Vec values with equal contents are equal and for every content there is a Vec (vec_of). NOT decided: whether satisfaction succeeds exactly when the policy is true and whether the returned program executes (typed programs, signatures, the Bit Machine) - "
                       "bounded enumeration only. Roots part: R8 stand-ins for the Elements jets (by name), Word constructors, keys/hashes, the satisfier trait (R5), costs and the cheapest-k selection; "
                       "`iter().map(..).collect()` and `for .. in a[1..].iter().zip(b[1..].iter())` are rewritten to index loops (R10); `Context::with_context(|ctx| ..)` to a fresh context.",
         "assumptions": [
             "roots: hashing uninterpreted (as C09); `.expect(\"consistent types\")` and the other panics are not proved absent (partial correctness); finalize_types / finalize_unpruned / prune keep the root (Node::convert: census + watch in unit cmr); "
             "the satisfier's answers, signature/preimage values, costs and the choice of the k cheapest children are opaque (they cannot enter a root); the fragments' combinator shapes are pinned (a changed shape makes the run undecided, not a violation)",
-            "derive(Ord) on Policy is a total preorder",
+            "derive(Ord) on Policy is a total order consistent with structural equality (reflexive, total, transitive; antisymmetric for the confluence clause)",
             "Vec::sort yields a sorted permutation and is the identity on sorted input",
             "Arc::make_mut(a) is a mutable reference to a's content",
         ],
-        "not_decided": ["confluence: reordered policies have the same sorted form", "second sentence of C16 (satisfaction iff true, returned program runs): bounded enumeration only"],
+        "not_decided": ["second sentence of C16 (satisfaction iff true, returned program runs): bounded enumeration only"],
         "explanation": "",
     },
     "C14": {
